@@ -409,6 +409,10 @@ def r6_file_list_owners(P, rep, ctx, rule="C03.R6"):
             if isinstance(x, (ast.Assign, ast.AugAssign)) and any(isinstance(t, ast.Attribute) and t.attr == "__files__" for t in (x.targets if isinstance(x, ast.Assign) else [x.target])):
                 v = x.value
                 fresh = isinstance(v, (ast.List, ast.ListComp)) and not any(isinstance(y, ast.Attribute) and y.attr == "__files__" for y in ast.walk(v))
+                # a re-ordering of the same list (sorted(x.__files__, key=..)) keeps every container
+                perm = isinstance(v, ast.Call) and isinstance(v.func, ast.Name) and v.func.id == "sorted" and len(v.args) == 1 and isinstance(v.args[0], ast.Attribute) and v.args[0].attr == "__files__"
+                if perm:
+                    continue
                 if not fresh:
                     bad = x
                 else:
